@@ -8,8 +8,14 @@ import pipeline
 BASE_KINDS = {"scalar", "fixed", "dyn", "obj", "scalar[]", "fixed[]", "dyn[]", "obj[]", "-"}
 SPEC = {
     # property: (Props module, sides, kinds, description)
-    "C01": ("C01", {"enc"}, BASE_KINDS),
-    "C02": ("C02", {"dec"}, BASE_KINDS),
+    # C01: "no declared field is omitted, reordered, widened, narrowed" — every encoder step,
+    # the computed members included (their VALUE is C04/C05/C06's subject, their presence,
+    # order and width are C01's as well).  C02: `emitted_roundtrip_full` needs the whole
+    # program accepted (decoder = spec for the first clauses, encoder = spec for "re-encoding
+    # reproduces the same bytes"), so every reason counts; a match arm lost in a decoder
+    # (seeded/C02d) breaks the round trip exactly like a mis-sized integer does.
+    "C01": ("C01", {"enc"}, None),
+    "C02": ("C02", {"enc", "dec"}, None),
     "C03": ("C03", {"enc", "dec"}, None),
     "C04": ("C04", {"enc", "dec"}, {"length", "length[]"}),
     "C05": ("C05", {"enc", "dec"}, {"match", "match[]"}),
